@@ -16,6 +16,10 @@ def build(tier):
                 continue
             obs.append(trees.tree_ob("C18.b", sk, "stdout", dict(base, out_i=0, recursive=rec, auto_ex=False, has_prefix=False),
                                      timeout=400 if quick else 2400))
+    # ... and the -o side of that equation on the same trees: the pages land at <relative path minus extension>.rst (dotted names, S1/S3)
+    for (sk, rec) in ((("S1", False),) if quick else (("S1", False), ("S3", True))):
+        obs.append(trees.tree_ob("C18.b", sk, "tree", dict(base, out_i=0, recursive=rec, auto_ex=False, has_prefix=False), fixrev=True, fixexcl=True,
+                                 timeout=400 if quick else 2400, note=" (the -o run of the same trees)"))
     obs.append(trees.tree_ob("C18.b", "S1", "stdout", dict(ext_m=False, sep2=False, excl_root=False, out_i=0, recursive=False, auto_ex=True),
                              fixrev=True, timeout=400 if quick else 2400, note=" (prefix, extensions in titles)"))
     # the output directory in effect is the one requested: a relative -o / configured directory resolved against the directory current when main() runs
